@@ -1,5 +1,5 @@
 (* C12 — default values are the SSZ zero values.  Property theorems only. *)
-Require Import RM.Base RM.Tree RM.Types RM.Spec RM.ModelViews RM.ModelCodec RM.DefaultProofs RM.DefaultEq.
+Require Import RM.Base RM.Tree RM.Types RM.Spec RM.ModelViews RM.ModelCodec RM.DefaultProofs RM.DefaultEq RM.ReprProofs RM.DefaultNav.
 Local Open Scope N_scope.
 
 (* the type's default backing tree has the hash-tree-root of the SSZ zero value, for every type *)
@@ -50,3 +50,19 @@ Print Assumptions C12_vector_navigable.
 Print Assumptions C12_zero_wellformed.
 Print Assumptions C12_equals_explicit.
 Print Assumptions C12_nonvacuous.
+
+(* a container built with some fields omitted is the container built from the value in which every omitted
+   field holds its type's zero value: the same backing tree *)
+Theorem C12_omitted_fields : forall H fs ovs, forallb wf_ty fs = true -> length ovs = length fs ->
+  mk_container_partial H fs ovs = mk H (TContainer fs) (VCont (fill_omitted fs ovs)).
+Proof. exact omitted_fields_default. Qed.
+
+(* fixed-structure chunked kinds (Bitvector, ByteVector, vectors of basic elements): every data chunk of the
+   default backing is navigable and is the corresponding chunk of the zero value's data *)
+Theorem C12_chunks_navigable : forall H src t n, wf_ty t = true -> chunked_fixed t = true -> default_node H t = Ok n ->
+  forall i, i < lenN (chunks (chunk_data t (zero_val t))) ->
+  getter_i src n i (contents_depth t) = Ok (RootN (nth (N.to_nat i) (chunks (chunk_data t (zero_val t))) zero32)).
+Proof. exact default_chunks_navigable. Qed.
+
+Print Assumptions C12_omitted_fields.
+Print Assumptions C12_chunks_navigable.
